@@ -95,6 +95,8 @@ def o_seq(case):
         cls.append("has-nmea")
     if case.get("long"):
         cls.append("long-stream")
+        if len(data) > 1024 * 1024:
+            cls.append("more-than-1MiB-through-one-socket")
     if any(i.get("huge") for i in items):
         cls.append("ubx-length>=32767")
     if any(i["k"] == "frame" and len(i["b"]) == 16 for i in items):
@@ -118,7 +120,7 @@ def o_seq(case):
 @st.composite
 def s_seq(draw, tier):
     fill_ok = draw(st.booleans())
-    items = draw(st.lists(streams.wellformed_items("small", fillers_ok=fill_ok), min_size=1, max_size=14))
+    items = streams.flatten(draw(st.lists(streams.wellformed_items("small", fillers_ok=fill_ok), min_size=1, max_size=14)))
     has_filler = any(i["k"] == "filler" for i in items)
     case = {"items": items}
     case["stream"] = draw(st.sampled_from(["bytesio", "buffered", "socket"]))
@@ -158,11 +160,42 @@ def e_long(tier, shard, nshards):
                     items.append({"k": "ubx", "b": (b"\xb5\x62\x01\x02\x01\x00" + bytes([j & 0xFF]) + b"\x00\x00").hex()} if j % 50 else f)
                 else:
                     items.append({"k": "noise", "b": bytes([1 + j % 30]).hex()} if j % 50 else f)
+            if kind in ("nmea-runs", "ubx-runs", "noise-runs"):
+                # one uninterrupted run of foreign items between frames (no frame in between)
+                foreign = [i for i in items if i["k"] != "frame"]
+                f0 = {"k": "frame", "b": fr.build_frame(b"\xfe\x80\x00\x01").hex(), "ident": "4072"}
+                items = [f0] + foreign + [f0, f0]
             case = {"items": items, "stream": stream, "parsed": True, "qoe": 2, "long": n}
             if stream == "socket":
                 case["bufsize"] = 4096
                 case["cuts"] = list(range(1000, sum(len(i["b"]) // 2 for i in items), 1000))
             yield case
+
+
+def e_big_socket(tier, shard, nshards):
+    """more than 1 MiB (thorough: 5 MiB) of well-formed traffic through ONE socket connection"""
+    from pv import framing as fr
+
+    if shard != 0:
+        return
+    total = (1536 if tier == "quick" else 5 * 1024) * 1024
+    items = []
+    size = 0
+    j = 0
+    while size < total:
+        p = bytes([0xFE, 0x80 | (j & 7)]) + bytes([(j * 7 + k) & 0xFF for k in range(1021)])
+        items.append({"k": "frame", "b": fr.build_frame(p).hex(), "ident": "4072", "big": True})
+        size += 1029
+        if j % 5 == 0:
+            items.append({"k": "nmea", "b": (b"$GNGGA," + str(j).encode() + b"*00\r\n").hex()})
+        j += 1
+    n = sum(len(i["b"]) // 2 for i in items)
+    yield {"items": items, "stream": "socket", "parsed": True, "qoe": 2, "bufsize": 4096, "cuts": list(range(1400, n, 1400)), "long": len(items)}
+
+
+def e_all(tier, shard, nshards):
+    yield from e_long(tier, shard, nshards)
+    yield from e_big_socket(tier, shard, nshards)
 
 
 def _sample(c):
@@ -176,10 +209,10 @@ SUBS = [
         "wellformed_sequences",
         o_seq,
         strategy=s_seq,
-        enum=e_long,
+        enum=e_all,
         examples=(150, 4000),
         rule="see property rule",
-        need={"long-stream": 1, "ubx-length>=32767": 1, "two-byte-payload-frame": 1, "zero-length-frame": 1, "has-1023-frame": 1, "ubx-with-sync-bytes": 1, "socket": 1, "buffered": 1, "qoe2": 1},
+        need={"more-than-1MiB-through-one-socket": 1, "long-stream": 1, "ubx-length>=32767": 1, "two-byte-payload-frame": 1, "zero-length-frame": 1, "has-1023-frame": 1, "ubx-with-sync-bytes": 1, "socket": 1, "buffered": 1, "qoe2": 1},
         sample=_sample,
     ),
 ]
